@@ -25,6 +25,7 @@ import (
 type pathOutcome struct {
 	Panicked, Cut bool
 	Events        []pathEvent
+	Ret           AVal
 }
 
 type pathEvent struct {
@@ -132,7 +133,7 @@ func (w *World) runPath(g *Grammar, entry, step, expr *ssa.Function, stream []to
 	}
 	var res []pathOutcome
 	for _, o := range ai.Exec(entry, []AVal{{Kind: avPtr, Obj: p, Field: -1}, {Kind: avUnknown, Tag: "n"}}, nil, st) {
-		po := pathOutcome{Panicked: o.Panicked, Cut: o.Cut}
+		po := pathOutcome{Panicked: o.Panicked, Cut: o.Cut, Ret: o.Ret}
 		for _, ev := range o.St.Trace {
 			switch ev.Kind {
 			case "tok", "step", "expr":
